@@ -200,16 +200,57 @@ Variable curpath : bytes.
 
 Notation excmd := (ex_command rvalid rfind filter readfile curpath).
 
-(* (T1) ANY command line: a list of UndoDefs operations, then the closing Bump; a quiet line: edits only *)
+Lemma is_edit_P : forall t b e, is_edit (AEdit t b e) = true.
+Proof. reflexivity. Qed.
+Lemma any_act_P : forall t b e, any_act (AEdit t b e) = true.
+Proof. reflexivity. Qed.
+Lemma eb_P : forall t b e, is_edit_or_bump (AEdit t b e) = true.
+Proof. reflexivity. Qed.
+
+(* (T1) ANY command line: a list of UndoDefs operations, then the closing Bump *)
 Theorem ex_command_ops fuel ln s u : Rl (lb s) u ->
-  exists ops, Rl (lb (fst (excmd fuel ln s))) (U.run_ops u (ops ++ [U.Bump])) /\
-              (quiet_line fuel ln = true -> exists l, ops = map UP.mk_edit l).
+  exists ops, Rl (lb (fst (excmd fuel ln s))) (U.run_ops u (ops ++ [U.Bump])).
 Proof.
   intro R.
-  destruct (step_ex_command U.lbuf URel urun1 URel_same URel_edit URel_bump URel_undo URel_save
-              rvalid rfind filter readfile curpath fuel ln s u R) as (acts & R1 & Q).
-  exists (map op_of acts). rewrite run_acts_ops, map_app in R1. split; [exact R1|].
-  intro X. apply edits_only, Q, X.
+  destruct (step_ex_command U.lbuf URel urun1 URel_same URel_edit URel_bump URel_undo URel_save any_act any_act_P
+              rvalid rfind filter readfile curpath fuel ln s u (line_ok_any fuel ln) R) as (acts & R1 & _).
+  exists (map op_of acts). rewrite run_acts_ops, map_app in R1. exact R1.
+Qed.
+
+(* a quiet line: edit calls only, then the closing Bump *)
+Theorem ex_command_quiet fuel ln s u : Rl (lb s) u -> quiet_line fuel ln = true ->
+  exists l, Rl (lb (fst (excmd fuel ln s))) (U.run_ops u (map UP.mk_edit l ++ [U.Bump])).
+Proof.
+  intros R Q.
+  destruct (step_ex_command U.lbuf URel urun1 URel_same URel_edit URel_bump URel_undo URel_save is_edit is_edit_P
+              rvalid rfind filter readfile curpath fuel ln s u Q R) as (acts & R1 & QE).
+  destruct (edits_only acts QE) as (l & E). exists l. rewrite run_acts_ops, map_app, E in R1. exact R1.
+Qed.
+
+(* a line without u and @ (w, w! and ! allowed): edit calls and bumps -- a LIST of CEdits commands, one per bump *)
+Lemma eb_split : forall ops : list U.op, Forall (fun o => match o with U.Edit _ _ _ | U.Bump => True | _ => False end) ops ->
+  exists ls, ls <> [] /\ ops ++ [U.Bump] = concat (map (fun l => U.ops_of_cmd (U.CEdits l)) ls).
+Proof.
+  induction ops as [|o ops IH]; intro F.
+  - exists [[]]. split; [discriminate | reflexivity].
+  - inversion F as [|? ? Ho F']; subst. destruct (IH F') as (ls & NE & E). destruct ls as [|l1 rest]; [congruence|].
+    destruct o as [buf b e| | |]; try contradiction.
+    + exists (((buf, b, e) :: l1) :: rest). split; [discriminate|]. cbn [app map concat U.ops_of_cmd] in *. rewrite E. reflexivity.
+    + exists ([] :: l1 :: rest). split; [discriminate|]. cbn [app map concat U.ops_of_cmd] in *. rewrite E. reflexivity.
+Qed.
+
+Theorem ex_command_nou fuel ln s u : Rl (lb s) u -> nou_line fuel ln = true ->
+  exists ls, ls <> [] /\
+    Rl (lb (fst (excmd fuel ln s))) (U.run_ops u (concat (map (fun l => U.ops_of_cmd (U.CEdits l)) ls))).
+Proof.
+  intros R Q.
+  destruct (step_ex_command U.lbuf URel urun1 URel_same URel_edit URel_bump URel_undo URel_save is_edit_or_bump eb_P
+              rvalid rfind filter readfile curpath fuel ln s u Q R) as (acts & R1 & QE).
+  assert (F : Forall (fun o => match o with U.Edit _ _ _ | U.Bump => True | _ => False end) (map op_of acts)).
+  { clear R1. induction acts as [|a acts IH]; [constructor|]. cbn [forallb] in QE. apply andb_prop in QE. destruct QE as [Q1 Q2].
+    constructor; [destruct a; try exact I; discriminate | apply IH, Q2]. }
+  destruct (eb_split _ F) as (ls & NE & E). exists ls. split; [exact NE|].
+  rewrite run_acts_ops, map_app in R1. cbn [map op_of] in R1. rewrite E in R1. exact R1.
 Qed.
 
 Lemma last_ok_fst : forall ops u ok, fst (U.last_ok u ops ok) = U.run_ops u ops.
@@ -248,7 +289,7 @@ Proof.
     destruct fuel as [|[|f]]; try lia. rewrite excmd_u. cbn [fst]. rewrite last_ok_fst. cbn [U.ops_of_cmd app U.run_ops].
     apply Rl_bump. apply (URel_undo s u R).
   - destruct OK as [Q|E]; [|congruence].
-    destruct (ex_command_ops fuel ln s u R) as (ops & R1 & X). destruct (X Q) as (l & ->).
+    destruct (ex_command_quiet fuel ln s u R Q) as (l & R1).
     exists (U.CEdits l). split; [split; [congruence | eauto]|]. rewrite last_ok_fst. exact R1.
 Qed.
 
@@ -287,7 +328,7 @@ Theorem after_lines_reach fuel : forall lines s u, Rl (lb s) u ->
   exists ops, Rl (lb (after_lines fuel lines s)) (U.run_ops u ops) /\ at_boundary ops.
 Proof.
   induction lines as [|ln lines IH]; intros s u R; [exists []; split; [exact R | left; reflexivity]|].
-  destruct (ex_command_ops fuel ln s u R) as (ops1 & R1 & _).
+  destruct (ex_command_ops fuel ln s u R) as (ops1 & R1).
   destruct (IH _ _ R1) as (ops2 & R2 & B). cbn [after_lines].
   exists ((ops1 ++ [U.Bump]) ++ ops2). split; [rewrite run_ops_app; exact R2|].
   right. destruct B as [->|(ops' & ->)]; [exists ops1; rewrite app_nil_r; reflexivity|].
@@ -360,7 +401,7 @@ Proof.
   destruct (after_lines_reach fuel pre (init_st data input wa) u0 (Rl_init data)) as (ops & RL & B). fold s in RL.
   pose proof (UP.R_ops u0 sp0 ops R0) as R. pose proof (keys_lt_boundary t0 3 ops B) as K. fold sp0 in K.
   set (u := U.run_ops u0 ops) in *. set (sp := U.spec_ops sp0 ops) in *.
-  destruct (ex_command_ops fuel ln s u RL) as (ops1 & RL1 & X). destruct (X Q) as (l & ->). fold s1 in RL1.
+  destruct (ex_command_quiet fuel ln s u RL Q) as (l & RL1). fold s1 in RL1.
   pose proof (UP.R_ops u sp (map UP.mk_edit l ++ [U.Bump]) R) as R1.
   rewrite <- (slast_fst _ sp true), UP.spec_edits in R1. cbn [fst] in R1.
   pose proof (UP.R_cur _ _ R) as C. pose proof (UP.R_cur _ _ R1) as C1.
